@@ -2,6 +2,7 @@ package c13
 
 import (
 	"fmt"
+	"io"
 	"net"
 	"sort"
 	"strconv"
@@ -29,7 +30,7 @@ type batchCfg struct {
 	Concurrent int    `json:"concurrent_clients"` // 1 = sequential
 }
 
-var kinds = []string{"ok", "ok", "4xx", "5xx", "reset-mid-body", "short-body", "abort-upload", "abort-download", "limited-client", "hold", "hold"}
+var kinds = []string{"ok", "ok", "4xx", "5xx", "reset-mid-body", "short-body", "abort-upload", "abort-download", "limited-client", "hold", "hold", "upgrade"}
 
 // A request of kind "hold" is parked in flight until the books have been read. The phase in which it
 // is parked is drawn (see genHold); the kind string carries it:
@@ -118,6 +119,7 @@ func holdScript(kind string) (*lab.RespScript, int) {
 type tally struct {
 	sent, limited, breakerRejected, noHealthy, aborted, answered int
 	bad502, clientAborts, uploadAborts                           int
+	upgraded                                                     int // handshakes answered 101 whose tunnel was used and ended
 }
 
 const ioDeadline = 10 * time.Second
@@ -145,6 +147,9 @@ func scriptFor(kind string) *lab.RespScript {
 		s.Fault = "slow-body"
 	case "hold":
 		s.Hold = true
+	case "upgrade":
+		// a WebSocket handshake the backend accepts: the exchange becomes a tunnel
+		s = &lab.RespScript{Status: 101, Framing: "none", BarrierAfter: -1, Header: []lab.KV{{K: "Upgrade", V: "websocket"}, {K: "Connection", V: "Upgrade"}, {K: "Sec-WebSocket-Accept", V: "s3pPLMBiTxaQ9kYGzzhZRbK+xOo="}}}
 	}
 	return s
 }
@@ -262,6 +267,33 @@ func issue(l *lab.SocketLab, kind string, client int, t *tally, mu *sync.Mutex, 
 		return
 	}
 	switch kind {
+	case "upgrade":
+		req.Header = append(req.Header, lab.KV{K: "Connection", V: "Upgrade"}, lab.KV{K: "Upgrade", V: "websocket"},
+			lab.KV{K: "Sec-WebSocket-Key", V: "dGhlIHNhbXBsZSBub25jZQ=="}, lab.KV{K: "Sec-WebSocket-Version", V: "13"})
+		cc, err := lab.Dial(l.Addr)
+		if err != nil {
+			classify(nil, err)
+			break
+		}
+		_ = cc.Send(req)
+		out, resp, err := cc.ReadHead("GET", ioDeadline)
+		if err == nil && out.Status == 101 {
+			// inside the tunnel: bytes that are no HTTP request; the backend gives up and closes, the tunnel ends
+			_, _ = cc.C.Write([]byte("\x81\x05hello\r\n\r\n"))
+			_ = cc.C.SetReadDeadline(time.Now().Add(ioDeadline))
+			_, _ = io.Copy(io.Discard, cc.BR)
+			cc.Close()
+			mu.Lock()
+			t.upgraded++
+			mu.Unlock()
+			classify(out, nil)
+			break
+		}
+		if err == nil {
+			cc.Finish(out, resp, nil, ioDeadline)
+		}
+		cc.Close()
+		classify(out, err)
 	case "abort-upload":
 		req.Method, req.Framing = "POST", "cl"
 		cc, err := lab.Dial(l.Addr)
@@ -345,9 +377,9 @@ func issue(l *lab.SocketLab, kind string, client int, t *tally, mu *sync.Mutex, 
 
 type snapshot struct {
 	total, ok, failed, limited uint64
-	perBackend               map[string]uint64
-	gauges                   map[string]int32 // from /metrics
-	listGauges               map[string]int32 // from /v1/backends (ListBackends)
+	perBackend                 map[string]uint64
+	gauges                     map[string]int32 // from /metrics
+	listGauges                 map[string]int32 // from /v1/backends (ListBackends)
 }
 
 func read(l *lab.SocketLab) snapshot {
@@ -465,11 +497,12 @@ func evalBooks(l *lab.SocketLab, bc batchCfg, t tally, parkedPer map[int]int, de
 
 func TestC13Accounting(t *testing.T) {
 	sub := lab.Sub("accounting-batches", "rapid: lab (5 strategies x 1-3 raw TCP backends, optional unreachable backend, limiter/breaker/passive checks on or off) and a batch of 5-40 requests over kinds "+
-		"{2xx, 4xx, 5xx, backend reset mid-body, short body, client abort mid-upload, client abort mid-download, rate-limited client, request parked in flight in a drawn phase (backend silent before its response head / head sent and no body byte / head and parts 1..k of n sent and read by the client / head and 256 KiB-1 MiB sent to a client that stopped reading after the head; cl, chunked or close-delimited)}, issued sequentially or by 2-64 concurrent clients over real sockets; "+
+		"{2xx, 4xx, 5xx, backend reset mid-body, short body, client abort mid-upload, client abort mid-download, rate-limited client, WebSocket handshake answered 101 whose tunnel is used and then ended by the backend, request parked in flight in a drawn phase (backend silent before its response head / head sent and no body byte / head and parts 1..k of n sent and read by the client / head and 256 KiB-1 MiB sent to a client that stopped reading after the head; cl, chunked or close-delimited)}, issued sequentially or by 2-64 concurrent clients over real sockets; "+
 		"books checked at quiescence while requests are parked (gauges = in flight) and again after release (gauges = 0): A1 total, A2 exactly-one-of successful/failed/rate-limited, A3 per-backend totals = the backends' own tallies and their sum = dispatched, A4 gauges in /metrics and /v1/backends; "+
 		"non-trivial = batch contains a failing/rejected/aborted kind")
 	sub.NontrivialFloor(0.70)
 	sub.Floor("has-abort", 0.10)
+	sub.Floor("upgraded-exchange", 0.30)
 	sub.Floor("parked-before-head", 0.25)
 	sub.Floor("parked-after-head", 0.12)
 	sub.Floor("parked-mid-body", 0.12)
@@ -590,6 +623,9 @@ func TestC13Accounting(t *testing.T) {
 		labels := []string{bc.Strategy, fmt.Sprintf("concurrent-%d", bc.Concurrent)}
 		if hasAbort {
 			labels = append(labels, "has-abort")
+		}
+		if tl.upgraded > 0 {
+			labels = append(labels, "upgraded-exchange")
 		}
 		if len(stillHeld) > 0 {
 			labels = append(labels, "gauge-read-while-parked")
